@@ -9,3 +9,4 @@ ASSUMPTIONS = ["A-AD: TensorFlow's GradientTape / ForwardAccumulator return the 
 
 from vt.contracts import iface_nll  # noqa: F401,E402
 from vt.contracts import derivs  # noqa: F401,E402
+from vt.contracts import autodiff_helpers  # noqa: F401,E402
